@@ -4,10 +4,11 @@ import importlib, json, sys, os
 sys.path.insert(0, '/verif')
 ids = [json.loads(l)['id'] for l in open('/verif/properties.jsonl')]
 checks, na = [], []
-PENDING = json.load(open('/verif/tools/pending.json')) if os.path.exists('/verif/tools/pending.json') else {}
+ACCEPTED = set(json.load(open('/verif/tools/accepted.json')))
+PENDING = {}
 for pid in ids:
     p = f'/verif/vmon/props/{pid}.py'
-    if not os.path.exists(p) or pid in PENDING:
+    if not os.path.exists(p) or pid not in ACCEPTED:
         na.append({"property_id": pid, "reason": PENDING.get(pid, "check not built yet in this round (see DESIGN.md section 5 for the planned monitor)")})
         continue
     m = importlib.import_module(f'vmon.props.{pid}')
